@@ -157,7 +157,8 @@ Err(e) == [ok |-> FALSE, err |-> e, pt |-> 0, seq |-> -1]
 OpenResult(m, o, iface, dst, w) ==
   LET L == PLen(m, o)
       k == Opener(w)
-  IN IF L < HdrSize THEN Err("size")                      \* split_last_chunk fails: InvalidSize
+  IN IF iface = "framed" /\ dst # "ok" THEN Err("header")   \* Message::try_parse fails / Control
+     ELSE IF L < HdrSize THEN Err("size")                 \* split_last_chunk fails: InvalidSize
      ELSE LET seq == ParseSeq(m, o, L)
               rest == L - HdrSize
           IN IF rest < TagSize THEN Err("auth")           \* no room for a tag: Authentication
@@ -207,15 +208,24 @@ Present(t, o) ==
   /\ phase' = "presented"
   /\ UNCHANGED <<msgs, nextseq, failat, call, outcome>>
 
+(* Framing (client.rs `Message::try_parse`, header.rs `Header`): applications prefix a data
+   message with the 4-byte header {version: u16, msg_type: u16} that `seal` returns.  Iface
+   "framed" parses the frame first and opens the payload only if it is a Data message; `dst`
+   then names what happened to the frame header: ok | version (unknown version) | type_control
+   (a valid frame of the other type: not opened) | type_invalid | short (fewer than 4 bytes). *)
+FrameOps == {"ok", "version", "type_control", "type_invalid", "short"}
+
 Ifaces == {"open", "inplace_vec", "inplace_fixed", "inplace_heapless"}
 Calls ==
+  {[iface |-> "framed", dst |-> d, opener |-> "same"] : d \in FrameOps} \cup
   {[iface |-> "open", dst |-> d, opener |-> "same"] : d \in {"exact", "plus", "minus"}}
   \cup {[iface |-> i, dst |-> "exact", opener |-> "same"] : i \in Ifaces \ {"open"}}
   \cup {[iface |-> i, dst |-> "exact", opener |-> w] : i \in {"open", "inplace_vec"}, w \in {"otherkey", "otherlabel"}}
 
 (* foreign-context opens are only interesting for strings that could be accepted at all *)
 CallsFor(o) == IF o.op \in {"intact", "hdrseq", "splice"} THEN Calls
-               ELSE {c \in Calls : c.opener = "same"}
+               ELSE IF o.op \in {"flip", "junk"} THEN {c \in Calls : c.opener = "same"}
+               ELSE {c \in Calls : c.opener = "same" /\ c.iface # "framed"}
 
 Open(c) ==
   /\ phase = "presented"
@@ -252,7 +262,8 @@ AcceptOnlyAuthentic ==
 (* whatever was sealed opens (with every interface, any number of times, in any order) *)
 AuthenticAccepted ==
   (phase = "done" /\ op.op = "intact" /\ call.opener = "same"
-     /\ ~(call.iface = "open" /\ call.dst = "minus" /\ msgs[target].len > 0)) =>
+     /\ ~(call.iface = "open" /\ call.dst = "minus" /\ msgs[target].len > 0)
+     /\ ~(call.iface = "framed" /\ call.dst # "ok")) =>
      /\ outcome.ok /\ outcome.pt = target
 
 (* opening returns the plaintext's message, and the sequence number used when sealing *)
@@ -260,7 +271,7 @@ ReturnsWhatWasSealed ==
   (phase = "done" /\ outcome.ok) => outcome.seq = msgs[outcome.pt].seq
 
 (* open is total: every byte string has a defined, non-panicking outcome *)
-Total0 == phase = "done" => (outcome.ok \/ outcome.err \in {"size", "auth", "small", "expired"})
+Total0 == phase = "done" => (outcome.ok \/ outcome.err \in {"size", "auth", "small", "expired", "header"})
 
 (* successful seals carry 0,1,2,... ; failed seals do not consume numbers *)
 SeqDense == /\ \A i \in 1..Len(msgs) : msgs[i].seq = i - 1
